@@ -1,5 +1,6 @@
 import KyupyVerif.Proofs.Def
 import KyupyVerif.Proofs.DefText
+import KyupyVerif.Proofs.DefPartial
 /-! # C20 — DEF data is extracted as written, with wildcards and via arrays expanded
 
 **Theorem (this file, for ALL point lists / wires / nets of the model `Model/Def.lean`):**
@@ -7,6 +8,19 @@ import KyupyVerif.Proofs.DefText
   the most recent explicit value on its axis (equivalently: an explicit coordinate is kept, a `*` takes the resolved
   value of the previous point); the optional third value is carried unchanged; vias never appear in the list.
 * `via_location`: each via entry is placed at the resolved location of the last point before it.
+* DOMAIN (audit 2, A-C20-3): the total functions `wirePoints`, `viasD`, `netViasD`, `netWires` seed a `*` in the FIRST point of a
+  wire with 0 — the grammar accepts `( * 5 )` there, DEF does not, and the code then puts `None` into the listing or raises
+  `TypeError`. The TIED functions are the partial ones (`Wire.wirePoints?`, `Wire.vias?`, `netVias?`, `netWiresR`, `netViasR`,
+  Model/Def.lean): defined exactly where the real property returns a listing of integers. Hypothesis `hs : w.startOK = true`
+  (decidable: both coordinates of the first point explicit) of `via_location`, `wire_vias`, `via_array_in_wire`,
+  `via_plain_in_wire`, `agg_vias`, `wire_points_resolved`, `wire_points_wildcard` puts a theorem inside that domain and its
+  conclusion speaks about the partial function; `wire_vias_defined`, `agg_vias` (2nd part), `agg_vias_keys_defined`, `wires_ok_iff`
+  cover every other input on which the real property is a listing; `agg_vias_none_iff`, `wires_outcomes` say what else can happen.
+  The harness generates first points with `*` (tag `dom-hyp:start-wildcard`) and compares the model's outcome (`!start`) with
+  the real one (`None` in the listing / `TypeError`).
+* `wires_raises_iff`, `wires_ok_iff`, `wires_listing`, `wires_text_raises_iff`, `vias_ignore_width` (audit 2, finding 5): the
+  records carry the RAW width token; `DefNet.wires` raises `ValueError` exactly when a LISTED wire (one with a second point) has
+  a token `int()` rejects, otherwise lists `int(token)`; `DefNet.vias` never reads the token.
 * `via_array`, `via_array_order`, `via_array_in_wire`: `DO n BY m STEP dx dy` at `p` yields exactly
   `{p + (i·dx, j·dy) : i < n, j < m}`, `n·m` entries, orientation `N`, x-major order, pairwise distinct whenever each
   axis with more than one copy has a non-zero step.
@@ -18,12 +32,14 @@ import KyupyVerif.Proofs.DefText
 * `asis_eq_spec`: the code-as-it-is reading (`netWiresAsIs`) coincides with the demanded one (`netWires`) exactly when every
   listed wire has a width and no `*` — i.e. the two observed defects are the only difference between them.
 
-**Correspondence (harness/c20.py, sampled):** the model functions evaluated by the compiled driver equal the real
-`DefWire.vias`, `DefNet.vias` (`Wire.viasD`, `netViasD` / `netViasAsIs`), and the real `DefWire.wire_points`, `DefNet.wires` equal
-the demanded reading (`Wire.wirePoints`, `netWires`) or one of the readings of the code as it is (`Wire.wirePointsRaw`,
-`netWiresAsIs`, `netWiresRaw`) on every generated routing description — exact, including dictionary key order. Which of the
-readings the code shows is not a matter of correspondence: the oracle compares with ground truth and reports the
-as-is readings as violations (classes `regular-net-wires`, `wildcard-in-wires`, `unrouted-net-wires`).
+**Correspondence (harness/c20.py, sampled):** the model functions evaluated by the compiled driver equal the OUTCOME of the real
+`DefWire.vias`, `DefNet.vias` (`Wire.vias?`, `netViasR`), `DefWire.wire_points`, `DefNet.wires` (`Wire.wirePoints?`, `netWiresR`) on
+every generated routing description — exact, including dictionary key order, and including the cases where the real property
+raises (`ValueError` of kyupy's own `int(width)`: the request carries the raw token, the harness converts nothing) or lists
+`None`. The legacy readings (`netWiresAsIs`, `netWiresRaw`, `Wire.wirePointsRaw`: trees before the wildcard / regular-net
+repairs) are still modelled; WHICH reading the tree under test shows is probed once per run on three hand-made nets and every
+case is then compared with exactly that one. The oracle compares with ground truth and reports the as-is readings as violations
+(classes `regular-net-wires`, `wildcard-in-wires`, `unrouted-net-wires`).
 **Oracle (sampled):** every attribute that `def_file.parse` extracts from a generated DEF text equals the generator's AST
 (units, die area, rows, tracks, via definitions, components, pins, net pins/options, raw wire entries), and
 `wires`/`vias` equal the generator's ground-truth geometry.
@@ -33,13 +49,20 @@ lark reads it: contextual scanner with the per-state terminal order of the real 
 ORIENTATION with look-ahead, NUMBER / SIGNED_NUMBER / STRING as their expressions; then `DefFile.ok` = the `int()` calls of
 `DefTransformer`): `def_text_roundtrip` — `parseDef (printDef f) = some f` for every valid syntax tree; `def_text_roundtrip_tree`
 (grammar alone), `def_text_valid_ok`.  `DefFile.netsRouted` hands the wires of ALL wiring statements of every net (`+ COVER | FIXED |
-ROUTED | NOSHIELD`, file order — the repaired code, D35) to the routing model above: `wiring_concat`, `wiring_part`,
-`wiring_none_lost`, `routed_handover`, `routed_two_statements`; the width conversion is partial (`toWire_isSome_iff`: no record when
-`int(width)` raises); `wiring_last_only_loses` = what the `setattr` of the tree before D35 lost (audit finding 4).
+ROUTED | NOSHIELD`, file order — the repaired code, D35) to the routing model above, as `DWire` records with the RAW width
+token (total hand-over; `toWire_isSome_iff` says where `int()` of a record would succeed, `wires_text_raises_iff` where the code
+actually calls it and raises). `wiring_concat`, `wiring_part`, `wiring_none_lost`, `routed_handover`, `routed_two_statements` are
+`simp`/`rfl` unfoldings of the DEFINITION `TNet.wiresT = parts.flatMap …` (audit 2, A-C20-2): they document the model, they do not
+carry the repair of audit finding 4. What carries it: the model definition + the sampled tie `defparse` (generated texts with
+1–3 wiring statements, `HANDOVER_TEXTS`, `HANDOVER_AUDIT2`: records AND the outcomes of `wires`/`vias` of every net) + oracle class
+`wiring-statements`; text-level link for printer texts: `routed_text` (with `def_text_roundtrip`), for other texts the
+kernel-checked instances below (two wiring statements, the auditor's width witness, `*` in a first point).
+`wiring_last_only_loses` = what the `setattr` of the tree before D35 lost (audit finding 4). `DefWire.kind` is not modelled (attribute oracle only).
 **Correspondence, text level (harness/c20.py, sampled):** the model reader (driver `defparse`) against the real lark grammar — parse
 tree with ALL tokens kept, every rule and every token text — and the real `def_file.parse` (accept / raise) on generated files,
 hand-written corner cases (missing blanks, `(10`, `NEWVIA`, `3;`, escaped strings, comments) and mutated texts; for generated
-files also the hand-over: `netsRouted` = the real `DefWire` records of every net.
+files also the hand-over: `netsRouted` = the real `DefWire` records of every net (raw width token), `netWiresR` / `netViasR` of them =
+the real outcome of `dnet.wires` / `dnet.vias` (tags `tie-hyp:text-net-*`).
 **Still trusted:** that lark implements the grammar as the hand-written reader does (LALR tables, `re` semantics) — checked by the
 text correspondence, not proved; the transformer's record building (attribute oracle above). -/
 namespace KV.C20
@@ -80,17 +103,33 @@ theorem wildcard_inherits (loc : Loc) (ps : List RPt) (i : Nat) (h1 : i + 1 < ps
 
 /-- `wirePoints` (what `DefNet.wires` must list) is the resolution of `wirePointsRaw` (what `DefWire.wire_points` holds):
 same length, resolved coordinates, third value unchanged; the list is the first point followed by the later *points*
-(via entries skipped), or empty when there is no later point. -/
+(via entries skipped), or empty when there is no later point.  Guard (audit 2, A-C20-3): the listing `wirePoints` is what the real
+`DefWire.wire_points` returns (`wirePoints?`, the tied function) whenever the first point is explicit; the only other case is a
+listed wire whose first point carries `*` — there the real listing starts with a `None` coordinate (`wirePoints? = none`). -/
 theorem wire_points_resolved (w : Wire) :
     w.wirePointsRaw = (if (ptsOf w.rest).isEmpty then [] else w.start :: ptsOf w.rest) ∧
     w.wirePoints.length = w.wirePointsRaw.length ∧
-    ∀ i, ∀ hi : i < w.wirePointsRaw.length, ∃ (h1 : i < w.wirePoints.length)
+    (∀ i, ∀ hi : i < w.wirePointsRaw.length, ∃ (h1 : i < w.wirePoints.length)
         (h2 : i < (resolveFrom (0, 0) w.wirePointsRaw).length),
       w.wirePoints[i] = ⟨((resolveFrom (0, 0) w.wirePointsRaw)[i]).1, ((resolveFrom (0, 0) w.wirePointsRaw)[i]).2,
-                          (w.wirePointsRaw[i]).ext⟩ := by
+                          (w.wirePointsRaw[i]).ext⟩) ∧
+    (w.startOK = true → w.wirePoints? = some w.wirePoints) ∧
+    (w.wirePoints? = none ↔ w.wirePointsRaw.isEmpty = false ∧ w.startOK = false) := by
   have hl : w.wirePoints.length = w.wirePointsRaw.length :=
     length_attachExt _ _ (length_resolveFrom _ _)
-  refine ⟨rfl, hl, ?_⟩
+  refine ⟨rfl, hl, ?_, ?_, ?_⟩
+  rotate_left
+  · intro hs
+    unfold Wire.wirePoints?
+    split
+    · rename_i he
+      have : w.wirePoints = [] := by
+        have h0 : w.wirePoints.length = 0 := by rw [hl]; simpa using he
+        exact List.eq_nil_of_length_eq_zero h0
+      rw [this]
+    · rfl
+  · unfold Wire.wirePoints?
+    cases w.wirePointsRaw.isEmpty <;> cases w.startOK <;> simp
   intro i hi
   have h2 : i < (resolveFrom (0, 0) w.wirePointsRaw).length := by rw [length_resolveFrom]; exact hi
   exact ⟨by rw [hl]; exact hi, h2, getElem_attachExt _ _ i h2 hi _⟩
@@ -104,7 +143,7 @@ theorem wire_points_wildcard (w : Wire) (hs : w.startOK = true) (i : Nat) (hi : 
       (∃ j, ∃ hj : j < w.wirePointsRaw.length, j ≤ i ∧ (w.wirePointsRaw[j]).y = some (w.wirePoints[i]).y ∧
           ∀ k, ∀ hk : k < w.wirePointsRaw.length, j < k → k ≤ i → (w.wirePointsRaw[k]).y = none) ∧
       (w.wirePoints[i]).ext = (w.wirePointsRaw[i]).ext := by
-  obtain ⟨_, _, hres⟩ := wire_points_resolved w
+  obtain ⟨_, _, hres, _⟩ := wire_points_resolved w
   obtain ⟨h1, h2, he⟩ := hres i hi
   have h0 : w.wirePointsRaw[0]'(by omega) = w.start := by
     have : w.wirePointsRaw = w.start :: ptsOf w.rest := by
@@ -134,9 +173,12 @@ theorem lastLoc_eq (w : Wire) (pre : List Item) : lastLoc w pre = endLoc w.loc0 
   | cons a t => cases hl : (a :: t).getLast? <;> simp_all [List.getLast?_cons_cons]
 
 /-- A via entry `it` that follows the entries `pre` is placed at the resolved location of the last point of
-`start :: points(pre)`; everything before and after it is unaffected. -/
-theorem via_location (w : Wire) (pre post : List Item) (it : Item) (hw : w.rest = pre ++ it :: post) :
+`start :: points(pre)`; everything before and after it is unaffected.  `hs` (first point explicit) is the domain on which the
+real `DefWire.vias` is a listing of integers (`Wire.vias?`, the tied function) — then it is `viasD`, the grouping of `viasFlat`. -/
+theorem via_location (w : Wire) (hs : w.startOK = true) (pre post : List Item) (it : Item) (hw : w.rest = pre ++ it :: post) :
+    w.vias? = some w.viasD ∧ (∀ t, w.viasD.get t = selectKey t w.viasFlat) ∧
     w.viasFlat = viasFlat w.loc0 pre ++ emit (lastLoc w pre) it ++ viasFlat (endLoc (lastLoc w pre) [it]) post := by
+  refine ⟨vias?_of_startOK w hs, viasD_get w, ?_⟩
   rw [Wire.viasFlat, hw, viasFlat_append, viasFlat_cons, lastLoc_eq, List.append_assoc]
 
 /-- `DO n BY m STEP dx dy` at `p`: exactly the positions `p + (i·dx, j·dy)`, `i < n`, `j < m`, all with orientation `N`;
@@ -161,27 +203,40 @@ theorem via_array_order (p : Loc) (n m : Nat) (dx dy : Int) (i j : Nat) (hi : i 
 
 /-- the dictionary returned by `DefWire.vias`: per type the ordered sub-list of the wire's vias, keys = types that occur,
 no key twice -/
-theorem wire_vias (w : Wire) :
-    (∀ t, w.viasD.get t = selectKey t w.viasFlat) ∧
-    (∀ t, t ∈ w.viasD.keys ↔ ∃ e ∈ w.viasFlat, e.1 = t) ∧
-    w.viasD.keys.Nodup :=
-  ⟨viasD_get w, mem_viasD_keys w, viasD_keys_nodup w⟩
+theorem wire_vias (w : Wire) (hs : w.startOK = true) :
+    ∃ d, w.vias? = some d ∧
+    (∀ t, d.get t = selectKey t w.viasFlat) ∧
+    (∀ t, t ∈ d.keys ↔ ∃ e ∈ w.viasFlat, e.1 = t) ∧
+    d.keys.Nodup :=
+  ⟨w.viasD, vias?_of_startOK w hs, viasD_get w, mem_viasD_keys w, viasD_keys_nodup w⟩
+
+/-- without the guard: WHEREVER the real `DefWire.vias` is a listing of integers (`vias? = some d`; e.g. a `*` in the first point
+that is overwritten before the first via) it is the total model's dictionary, so the three clauses hold of it -/
+theorem wire_vias_defined (w : Wire) (d : Dict ViaLoc) (h : w.vias? = some d) :
+    d = w.viasD ∧ (∀ t, d.get t = selectKey t w.viasFlat) ∧ d.keys.Nodup := by
+  have := vias?_eq_viasD w d h
+  subst this
+  exact ⟨rfl, viasD_get w, viasD_keys_nodup w⟩
 
 /-- a via array inside a wire: under its type the wire lists what came before, then the `n·m` expanded positions at the
 resolved location of the last point, then what comes after -/
-theorem via_array_in_wire (w : Wire) (pre post : List Item) (name : String) (n m : Nat) (dx dy : Int)
+theorem via_array_in_wire (w : Wire) (hs : w.startOK = true) (pre post : List Item) (name : String) (n m : Nat) (dx dy : Int)
     (hw : w.rest = pre ++ Item.arr name n m dx dy :: post) :
-    w.viasD.get name = selectKey name (viasFlat w.loc0 pre) ++ arrayAt (lastLoc w pre) n m dx dy ++
+    ∃ d, w.vias? = some d ∧
+    d.get name = selectKey name (viasFlat w.loc0 pre) ++ arrayAt (lastLoc w pre) n m dx dy ++
       selectKey name (viasFlat (lastLoc w pre) post) := by
-  rw [viasD_get, via_location w pre post _ hw, selectKey_append, selectKey_append, selectKey_emit]
+  refine ⟨w.viasD, vias?_of_startOK w hs, ?_⟩
+  rw [viasD_get, (via_location w hs pre post _ hw).2.2, selectKey_append, selectKey_append, selectKey_emit]
   simp [endLoc]
 
 /-- plain vias: `(x, y, orient)` at the current location; no orientation given (special nets) reads `N` -/
-theorem via_plain_in_wire (w : Wire) (pre post : List Item) (name : String) (o : Option String)
+theorem via_plain_in_wire (w : Wire) (hs : w.startOK = true) (pre post : List Item) (name : String) (o : Option String)
     (hw : w.rest = pre ++ Item.via name o :: post) :
-    w.viasD.get name = selectKey name (viasFlat w.loc0 pre) ++ [((lastLoc w pre).1, (lastLoc w pre).2, orientOf o)] ++
+    ∃ d, w.vias? = some d ∧
+    d.get name = selectKey name (viasFlat w.loc0 pre) ++ [((lastLoc w pre).1, (lastLoc w pre).2, orientOf o)] ++
       selectKey name (viasFlat (lastLoc w pre) post) := by
-  rw [viasD_get, via_location w pre post _ hw, selectKey_append, selectKey_append, selectKey_emit]
+  refine ⟨w.viasD, vias?_of_startOK w hs, ?_⟩
+  rw [viasD_get, (via_location w hs pre post _ hw).2.2, selectKey_append, selectKey_append, selectKey_emit]
   simp [endLoc]
 
 /-! ## per-net aggregation -/
@@ -214,14 +269,29 @@ theorem agg_wires_append (a b : List Wire) (layer : String) :
     (netWires (a ++ b)).get layer = (netWires a).get layer ++ (netWires b).get layer := by
   simp [agg_wires]
 
-/-- `DefNet.vias`: under each via type the concatenation, in segment order, of what each segment lists under that type -/
-theorem agg_vias (ws : List Wire) (t : String) :
+/-- the total model `netViasD` (seed `(0,0)` for a `*` in a first point — NOT the code there, see `agg_vias`): under each via type
+the concatenation, in segment order, of what each segment lists under that type -/
+theorem agg_vias_total (ws : List Wire) (t : String) :
     (netViasD ws).get t = ws.flatMap (fun w => w.viasD.get t) ∧
     (netViasD ws).get t = ws.flatMap (fun w => selectKey t w.viasFlat) := by
   have h : (netViasD ws).get t = ws.flatMap (fun w => w.viasD.get t) := by
     simpa [netViasD, Dict.get] using get_foldl_vias ws [] t
   refine ⟨h, ?_⟩
   rw [h]; congr 1; funext w; exact viasD_get w t
+
+/-- `DefNet.vias` (the tied partial function `netVias?`): for a net whose wires all start with an explicit point the real property
+is a listing of integers, and under each via type it is the concatenation, in segment order, of what each segment lists under
+that type.  Second part: WHEREVER the real property is such a listing (`netVias? ws = some d`) the same holds. -/
+theorem agg_vias (ws : List Wire) (t : String) :
+    ((∀ w ∈ ws, w.startOK = true) → netVias? ws = some (netViasD ws)) ∧
+    (∀ d, netVias? ws = some d →
+      d.get t = ws.flatMap (fun w => w.viasD.get t) ∧ d.get t = ws.flatMap (fun w => selectKey t w.viasFlat)) := by
+  refine ⟨netVias?_of_startOK ws, fun d h => ?_⟩
+  rw [netVias?_eq ws d h]
+  exact agg_vias_total ws t
+
+/-- where it is not: some wire's own `vias` is not a listing of integers (`None` in a tuple / `TypeError`) -/
+theorem agg_vias_none_iff (ws : List Wire) : netVias? ws = none ↔ ∃ w ∈ ws, w.vias? = none := netVias?_eq_none_iff ws
 
 theorem agg_vias_keys (ws : List Wire) :
     (∀ k, k ∈ (netViasD ws).keys ↔ ∃ w ∈ ws, ∃ e ∈ w.viasFlat, e.1 = k) ∧ (netViasD ws).keys.Nodup := by
@@ -235,7 +305,52 @@ theorem agg_vias_keys (ws : List Wire) :
 
 theorem agg_vias_append (a b : List Wire) (t : String) :
     (netViasD (a ++ b)).get t = (netViasD a).get t ++ (netViasD b).get t := by
-  simp [(agg_vias _ t).1]
+  simp [(agg_vias_total _ t).1]
+
+theorem agg_vias_keys_defined (ws : List Wire) (d : Dict ViaLoc) (h : netVias? ws = some d) :
+    (∀ k, k ∈ d.keys ↔ ∃ w ∈ ws, ∃ e ∈ w.viasFlat, e.1 = k) ∧ d.keys.Nodup := by
+  rw [netVias?_eq ws d h]; exact agg_vias_keys ws
+
+/-! ## the real properties on the raw `DefWire` records (width token unconverted; audit 2, finding 5)
+
+`netWiresR` / `netViasR` (Model/Def.lean) are the tied functions for `DefNet.wires` / `DefNet.vias`. -/
+
+/-- `DefNet.wires` raises `ValueError` exactly when a LISTED wire (one with a second point) has a width token `int()` rejects:
+a bad token on a wire without second point is never converted -/
+theorem wires_raises_iff (ws : List DWire) :
+    netWiresR ws = .error "value" ↔ ∃ w ∈ ws, w.listed = true ∧ w.widthVal = none := netWiresR_value_iff ws
+
+/-- `DefNet.wires` returns a listing of integers exactly when every listed wire has a width `int()` accepts (or none: regular
+net) and an explicit first point; the listing is then the demanded one (`netWires`, to which `agg_wires`, `agg_wires_keys`,
+`agg_wires_append`, `wire_points_wildcard` apply) of the converted records; unlisted wires with a bad token simply drop out -/
+theorem wires_ok_iff (ws : List DWire) (d : Dict (Option Nat × List Pt3)) :
+    netWiresR ws = .ok d ↔
+      (∀ w ∈ ws, w.listed = true → w.widthVal.isSome = true ∧ w.geom.startOK = true) ∧
+      d = netWires (ws.filterMap DWire.conv) := netWiresR_ok_iff ws d
+
+/-- the only other outcome: it returns, but the listing contains `None` (a listed wire starts with `*`) -/
+theorem wires_outcomes (ws : List DWire) :
+    (∃ d, netWiresR ws = .ok d) ∨ netWiresR ws = .error "value" ∨ netWiresR ws = .error "start" := by
+  unfold netWiresR
+  cases h : netWiresGo [] ws with
+  | error e => have := netWiresGo_error ws [] e h; subst this; exact Or.inr (Or.inl rfl)
+  | ok d => simp only; split <;> simp
+
+/-- the per-layer listing stated on the raw records directly -/
+theorem wires_listing (ws : List DWire) (d : Dict (Option Nat × List Pt3)) (h : netWiresR ws = .ok d) (layer : String) :
+    d.get layer = ws.flatMap (fun w => if w.layer = layer ∧ w.listed = true
+                                        then [(w.widthVal.getD none, w.geom.wirePoints)] else []) :=
+  netWiresR_get ws d h layer
+
+/-- `DefNet.vias` never reads the width: replacing the width tokens by anything changes nothing; it is total on nets whose
+wires start with an explicit point, whatever the tokens -/
+theorem vias_ignore_width (ws : List DWire) (f : DWire → Option String) :
+    netViasR (ws.map fun w => { w with width := f w }) = netViasR ws ∧
+    ((∀ w ∈ ws, w.geom.startOK = true) → netViasR ws = some (netViasD (ws.map DWire.geom))) := by
+  constructor
+  · simp only [netViasR, List.map_map]; rfl
+  · intro hs
+    exact netVias?_of_startOK _ (by simpa using hs)
 
 /-! ## the code as it is vs. the demanded reading -/
 
@@ -347,6 +462,8 @@ example : [exPlain, exPlain].all (fun w => w.width.isSome) = true ∧
 /-! ## text level: the grammar of `def_file.py` (Model/DefText.lean) -/
 section text
 open KV.DefText
+set_option synthInstance.maxSize 4096   -- `Decidable` of the nested listing types in the examples (section-local)
+set_option synthInstance.maxHeartbeats 200000
 
 /-- Print/parse round trip of the DEF text model: for every syntax tree `f` of the grammar (head comment, VERSION /
 DIVIDERCHAR / BUSBITCHARS, DESIGN with UNITS, DIEAREA, ROW, TRACKS, PROPERTYDEFINITIONS, VIAS, NONDEFAULTRULES,
@@ -420,43 +537,64 @@ theorem wiring_none_lost (name : Txt) (p q : List NetPart) (k : Kw) (ws : List T
     TNet.wiresT ⟨name, p ++ .wiring k ws :: q⟩ = TNet.wiresT ⟨name, p⟩ ++ ws ++ TNet.wiresT ⟨name, q⟩ := by
   simp [TNet.wiresT]
 
-/-- The record handed to the routing model exists exactly when every listed width is an integer token (`int(width)` of
-`DefNet.wires` does not raise); it is never a made-up number. -/
+/-- The hand-over `toWire` is total and carries the RAW width token. `int(width)` of THIS record (`DWire.conv`, `DWire.widthVal`)
+succeeds exactly when the token, if any, is plain digits — and then gives `natOf` of it, never a made-up number. Whether the
+real code ever evaluates it is a different matter: `DefNet.wires` does so only for LISTED wires (`wires_text_raises_iff`),
+`DefNet.vias` never (`vias_ignore_width`). -/
 theorem toWire_isSome_iff (sp : Bool) (w : TWire) :
-    (w.toWire sp).isSome = true ↔ ∀ t, w.width = some t → intOK t = true := by
-  unfold TWire.toWire
+    ((w.toWire sp).conv.isSome = true ↔ ∀ t, w.width = some t → intOK t = true) ∧
+    (w.toWire sp).widthVal = (match w.width with
+      | none => some none
+      | some t => if intOK t then some (some (natOf t)) else none) := by
+  refine ⟨?_, toWire_widthVal sp w⟩
+  simp only [KV.Def.DWire.conv, Option.isSome_map, toWire_widthVal]
   cases hw : w.width with
   | none => simp
   | some t => by_cases h : intOK t = true <;> simp [h]
 
-/-- `dnet.routed` as the routing model receives it: one record per wire of every wiring statement, in order (index-aligned
-with `wiresT`), each the conversion of its wire -/
-theorem routed_handover (sp : Bool) (n : TNet) (W : List Wire) (h : n.routed sp = some W) :
-    W.length = n.wiresT.length ∧ ∀ i (hi : i < n.wiresT.length), (n.wiresT[i]).toWire sp = W[i]? := by
-  unfold TNet.routed at h
-  rw [allSome_eq_some] at h
-  have hl : W.length = n.wiresT.length := by
-    have := congrArg List.length h; simpa using this.symm
-  refine ⟨hl, ?_⟩
-  intro i hi
-  have := congrArg (fun l => l[i]?) h
-  simp only [List.getElem?_map] at this
-  rw [List.getElem?_eq_getElem hi] at this
-  simp only [Option.map_some] at this
-  have hi' : i < W.length := by omega
-  rw [List.getElem?_eq_getElem hi'] at this ⊢
-  simpa using this
+/-- text level of `wires_raises_iff`: `DefNet.wires` of a parsed net raises `ValueError` exactly when one of its wires — of any
+wiring statement — has a second point AND a width token that is not plain digits -/
+theorem wires_text_raises_iff (sp : Bool) (n : TNet) :
+    netWiresR (n.routed sp) = .error "value" ↔
+      ∃ w ∈ n.wiresT, (w.toWire sp).listed = true ∧ ∃ t, w.width = some t ∧ intOK t = false := by
+  rw [wires_raises_iff]
+  have key : ∀ w : TWire, (w.toWire sp).widthVal = none ↔ ∃ t, w.width = some t ∧ intOK t = false := by
+    intro w
+    rw [toWire_widthVal]
+    cases hw : w.width with
+    | none => simp
+    | some t => cases h : intOK t <;> simp
+  constructor
+  · rintro ⟨dw, hm, hl, hv⟩
+    simp only [TNet.routed, List.mem_map] at hm
+    obtain ⟨w, hmw, rfl⟩ := hm
+    exact ⟨w, hmw, hl, (key w).1 hv⟩
+  · rintro ⟨w, hm, hl, ht⟩
+    exact ⟨w.toWire sp, by simp only [TNet.routed, List.mem_map]; exact ⟨w, hm, rfl⟩, hl, (key w).2 ht⟩
+
+/-- `dnet.routed` as the routing model receives it (always — no width token can prevent it): one record per wire of every
+wiring statement, in order (index-aligned with `wiresT`), each the record of its wire -/
+theorem routed_handover (sp : Bool) (n : TNet) :
+    (n.routed sp).length = n.wiresT.length ∧
+    ∀ i (hi : i < n.wiresT.length), (n.routed sp)[i]? = some ((n.wiresT[i]).toWire sp) := by
+  unfold TNet.routed
+  refine ⟨by simp, fun i hi => ?_⟩
+  simp [List.getElem?_map, List.getElem?_eq_getElem hi]
 
 /-- … hence the per-layer / per-type listings of the net are those of the concatenation (with `agg_wires_append`,
 `agg_vias_append`): for two wiring statements the listing of the net is built from the wires of the first followed by the
 wires of the second. -/
-theorem routed_two_statements (sp : Bool) (name : Txt) (k1 k2 : Kw) (ws1 ws2 : List TWire) (W1 W2 : List Wire)
-    (h1 : TNet.routed sp ⟨name, [.wiring k1 ws1]⟩ = some W1) (h2 : TNet.routed sp ⟨name, [.wiring k2 ws2]⟩ = some W2) :
-    TNet.routed sp ⟨name, [.wiring k1 ws1, .wiring k2 ws2]⟩ = some (W1 ++ W2) := by
-  unfold TNet.routed at *
-  rw [allSome_eq_some] at *
-  simp only [TNet.wiresT, List.flatMap_cons, List.flatMap_nil, List.append_nil, List.map_append] at *
-  rw [h1, h2]
+theorem routed_two_statements (sp : Bool) (name : Txt) (k1 k2 : Kw) (ws1 ws2 : List TWire) :
+    TNet.routed sp ⟨name, [.wiring k1 ws1, .wiring k2 ws2]⟩ =
+      TNet.routed sp ⟨name, [.wiring k1 ws1]⟩ ++ TNet.routed sp ⟨name, [.wiring k2 ws2]⟩ := by
+  simp [TNet.routed, TNet.wiresT]
+
+/-- the text-level link: reading the canonical text of a valid tree hands over exactly the records of the tree — so what
+`wiring_*` / `routed_*` say about the tree is said about the parse of its text (`def_text_roundtrip`).  For texts the printer
+does not produce the link is the sampled tie `defparse` (and the kernel-checked instances below). -/
+theorem routed_text (f : DefFile) (h : f.valid = true) :
+    (parseDef (printDef f)).map DefFile.netsRouted = some f.netsRouted := by
+  rw [def_text_roundtrip f h]; rfl
 
 /-- the reading of the tree before D35 (`setattr`: last `+ ROUTED` statement only) loses wires: the auditor's witness
 (`+ ROUTED m1 .. + ROUTED m2 ..`: the m1 segment is gone) and a `+ FIXED` statement (never listed) -/
@@ -468,22 +606,47 @@ theorem wiring_last_only_loses :
     ∧ TNet.wiresTOld ⟨t "VDD", [.wiring .Fixed [w1]]⟩ = []
     ∧ TNet.wiresT ⟨t "VDD", [.wiring .Fixed [w1]]⟩ = [w1] := by decide +kernel
 
-/-- `int("1.5")` raises in `DefNet.wires`: no record (the former totalisation gave width 105) -/
-example : (TWire.toWire true ⟨t "m1", some (t "1.5"), [], .none, none, pt (some "0") (some "0"), [.pt (pt (some "50") none)]⟩) = none
-    ∧ ((TWire.toWire true ⟨t "m1", some (t "15"), [], .none, none, pt (some "0") (some "0"), [.pt (pt (some "50") none)]⟩).map (·.width))
-        = some (some 15) := by decide +kernel
+/-- outcome of `DefNet.wires` (type ascription helper for the examples) -/
+abbrev WRes := Res (Dict (Option Nat × List Pt3))
+def WRes.ok (d : Dict (Option Nat × List Pt3)) : WRes := Res.ok d
+def WRes.error (e : String) : WRes := Res.error e
+
+/-- `int("1.5")` raises in `DefNet.wires` (the wire is listed): `ValueError`, no made-up width (the first totalisation gave 105);
+`15` is converted -/
+example : netWiresR [TWire.toWire true ⟨t "m1", some (t "1.5"), [], .none, none, pt (some "0") (some "0"), [.pt (pt (some "50") none)]⟩]
+      = WRes.error "value"
+    ∧ netWiresR [TWire.toWire true ⟨t "m1", some (t "15"), [], .none, none, pt (some "0") (some "0"), [.pt (pt (some "50") none)]⟩]
+      = WRes.ok [("m1", [(some 15, [⟨0, 0, none⟩, ⟨50, 0, none⟩])])] := by decide +kernel
+
+/-- the auditor's witness (audit 2, finding 5), from the TEXT: the width `1.5` sits on a wire without second point, so the real
+`wires` AND `vias` return data (ran the real code: `{'m2': [(7, [(1,1),(2,1)])]}`, `{'v1': [(0,0,'N')], 'v2': [(2,1,'N'),(5,1,'N')]}`)
+— the model now says the same (it said `none`) -/
+example : (parseDef "DESIGN t ; SPECIALNETS 1 ; - VDD + ROUTED m1 1.5 ( 0 0 ) v1 NEW m2 7 ( 1 1 ) ( 2 * ) v2 DO 2 BY 1 STEP 3 0 ; END SPECIALNETS END DESIGN").map
+      (fun f => f.netsRouted.map fun r => (netWiresR r.2.2, netViasR r.2.2))
+    = some [(WRes.ok [("m2", [(some 7, [⟨1, 1, none⟩, ⟨2, 1, none⟩])])],
+             some [("v1", [(0, 0, "N")]), ("v2", [(2, 1, "N"), (5, 1, "N")])])] := by decide +kernel
+
+/-- two wiring statements in the TEXT (the case of audit finding 4 / D35), read by the text model: both wire lists, in file
+order; a `*` in a first point (`( * 5 )`, accepted by the grammar, not DEF): outside the domain of `vias` (`None` in the tuple) -/
+example : (parseDef "DESIGN t ; SPECIALNETS 1 ; - VDD + ROUTED m1 100 ( 0 0 ) ( 50 * ) + FIXED m2 100 ( 0 0 ) ( * 70 ) v1 ; END SPECIALNETS END DESIGN").map
+      (fun f => f.netsRouted.map fun r => (netWiresR r.2.2, netViasR r.2.2))
+    = some [(WRes.ok [("m1", [(some 100, [⟨0, 0, none⟩, ⟨50, 0, none⟩])]), ("m2", [(some 100, [⟨0, 0, none⟩, ⟨0, 70, none⟩])])],
+             some [("v1", [(0, 70, "N")])])]
+  ∧ (parseDef "DESIGN t ; SPECIALNETS 1 ; - VDD + ROUTED m1 100 ( * 5 ) v1 ; END SPECIALNETS END DESIGN").map
+      (fun f => f.netsRouted.map fun r => (netWiresR r.2.2, netViasR r.2.2)) = some [(WRes.ok [], none)]
+  ∧ (parseDef "DESIGN t ; SPECIALNETS 1 ; - VDD + ROUTED m1 100 ( * 5 ) ( 7 * ) v1 ; END SPECIALNETS END DESIGN").map
+      (fun f => f.netsRouted.map fun r => (netWiresR r.2.2, netViasR r.2.2))
+    = some [(WRes.error "start", some [("v1", [(7, 5, "N")])])] :=
+  ⟨by decide +kernel, by decide +kernel, by decide +kernel⟩
 
 /-- regular net `n1` of `exText` (`+ ROUTED` with two wires, `+ USE`, `+ NOSHIELD` with one wire): all three wires are
 handed over in file order, and what the routing theorems above say about them (`*` resolved, third value carried, vias at
 the last point; the via `v2` of the NOSHIELD wire is listed behind that of the ROUTED wire) -/
-def exRouted : Option (List Wire) := (exText.netsRouted.find? (·.2.1 == t "n1")).bind (·.2.2)
+def exRouted : Option (List DWire) := (exText.netsRouted.find? (·.2.1 == t "n1")).map (·.2.2)
 example : exRouted.map (·.map (·.layer)) = some ["metal1", "metal2", "m3"]
-    ∧ exRouted.map (fun ws => (ws.headD default).wirePoints.map (fun p => (p.x, p.y))) = some [(0, 0), (5, 0), (5, 0)]
-    ∧ exRouted.map netViasD
-      = some [("via1_0", [(5, 0, "FS")]), ("v3", [(5, 0, "N")]), ("v4", [(5, 0, "N")]), ("v2", [(1, 1, "N"), (1, 1, "N")])] := by
-  decide +kernel
-/-- hypotheses of `routed_two_statements` / `routed_handover` are satisfiable: the two statements of `n1` -/
-example : (TNet.routed false ⟨t "n1", [.wiring .Noshield [⟨t "m3", none, [], .none, some (t "0"), pt (some "1") (some "1"), [.via (t "v2") (some (t "N"))]⟩]]⟩).isSome = true := by
+    ∧ exRouted.map (fun ws => (ws.headD default).geom.wirePoints.map (fun p => (p.x, p.y))) = some [(0, 0), (5, 0), (5, 0)]
+    ∧ exRouted.map netViasR
+      = some (some [("via1_0", [(5, 0, "FS")]), ("v3", [(5, 0, "N")]), ("v4", [(5, 0, "N")]), ("v2", [(1, 1, "N"), (1, 1, "N")])]) := by
   decide +kernel
 
 /-- the reader on texts the printer does not produce: no blank before `;` after a NUMBER, a comment, `(10` after a point
